@@ -16,6 +16,32 @@ class Endless(Exception):
     pass
 
 
+class BoundedParser:
+    """The transport's FrameParser behind a counter: no chunk of n bytes holds more than n frames, so a decoder that keeps
+    producing is stuck in a loop (the transport's read loop would otherwise fill the memory with queued frames)."""
+
+    def __init__(self, inner):
+        self._inner = inner
+
+    def __getattr__(self, name):
+        return getattr(self._inner, name)
+
+    async def receive_data(self, data, header_length=3):
+        from harness.common import CaseTimeout
+        n = 0
+        async for frame in self._inner.receive_data(data, header_length):
+            n += 1
+            if n > len(data) + 16:
+                raise CaseTimeout('decoder produced %d frames from %d bytes' % (n, len(data)))
+            yield frame
+
+
+def bound(transport):
+    if hasattr(transport, '_frame_parser') and not isinstance(transport._frame_parser, BoundedParser):
+        transport._frame_parser = BoundedParser(transport._frame_parser)
+    return transport
+
+
 class FakeWS:
     """async-iterable source of incoming messages + sink for outgoing ones (aiohttp / websockets / asyncwebsockets)"""
 
@@ -138,6 +164,7 @@ async def _make(glue, ws):
 async def feed(loop, glue, messages, noise=False, cap=None):
     ws = FakeWS(_wrap_incoming(glue, messages, noise))
     t, run = await _make(glue, ws)
+    bound(t)
     cap = cap if cap is not None else len(messages) + 4
     await run()
     out = []
@@ -182,7 +209,7 @@ async def feed_quic(loop, chunks, cap):
     from harness.glue_e2e import quic_pair
     from rsocket.transports.aioquic_transport import RSocketQuicTransport
     _pa, pb = quic_pair()
-    t = RSocketQuicTransport(pb)
+    t = bound(RSocketQuicTransport(pb))
     for ch in chunks:
         if ch:
             pb.quic_event_received(StreamDataReceived(data=bytes(ch), end_stream=False, stream_id=0))
